@@ -93,6 +93,22 @@ def run(rep):
             meta.append((name, "skip#%d short" % i, "skipmode-honest"))
             rcases.append(readcore.read_case(arc, source=(0,), rplan=[bs] * (nblocks + 1), has_skip=1, has_seek=1, faults=[(2, i, -1)], consume=dump, noraw=1))
             meta.append((name, "seek#%d fails" % i, "seek"))
+    # ---- the same cut input read twice, bodies read and bodies skipped, through a client that has a seek callback but
+    # no skip callback (skips beyond 64 KiB are then made with the seek callback): skipping must not turn the
+    # truncation error into a clean end
+    pair_at = {}
+    for name, arc in arcs:
+        if not name.endswith("#big"):
+            continue
+        L = len(arc)
+        for cut in sorted(set([L // 3, L // 2, (2 * L) // 3, L - 70000, L - 1000] + [r.randrange(2000, L) for _ in range(2 if quick else 12)])):
+            if not 0 < cut < L:
+                continue
+            bs = r.choice([512, 10240, 65536])
+            for mode, cons in (("read", dump), ("skip", (3, 0, 0))):
+                pair_at[(name, cut, mode)] = len(rcases)
+                rcases.append(readcore.read_case(arc[:cut], source=(0,), rplan=[bs] * (3 * (cut // bs + 2)), has_skip=0, has_seek=1, consume=cons, noraw=1))
+                meta.append((name, "seek-only client, bodies %s, truncate@%d" % (mode, cut), "pair"))
     # ---- filters with an end-of-stream marker, read through the raw format (nothing behind them can mask a cut)
     EOS_FILTERS = ["gzip", "bzip2", "xz", "lzip", "zstd", "lz4", "uuencode", "b64encode"]
     body = bytes(((i * 131) ^ (i >> 7)) & 0xff if (i // 5000) % 2 else 65 + (i % 7) for i in range(350000 if not quick else 120000))
@@ -138,7 +154,10 @@ def run(rep):
         if base is None or base[-4] != EOF:
             continue      # only archives that read cleanly when intact
         nchk += 1
-        if kind in ("skipmode", "skipmode-honest"):
+        if kind == "pair":
+            hit = check_prefix([e[:12] + [b""] if isinstance(e, list) else e for e in base],
+                               [e[:12] + [b""] if isinstance(e, list) else e for e in d], what)
+        elif kind in ("skipmode", "skipmode-honest"):
             # no data dumped in skip mode: compare headers only
             hit = check_prefix([e[:12] + [b""] if isinstance(e, list) else e for e in base],
                                [e[:12] + [b""] if isinstance(e, list) else e for e in d], what)
@@ -165,6 +184,21 @@ def run(rep):
         if hit:
             rep.violation("C08:%s:%s" % (hit[0], name), "%s (%s)" % (hit[1], name),
                           dict(case=c[:200000], archive=name, fault=what, digest=str(d)[:1200], intact=str(base)[:1200],
+                               cmd="harness readAll (asan) on the case line"), found_input=True)
+    for (name, cut, mode), k in sorted(pair_at.items()):
+        if mode != "read" or lines[k] is None or lines[pair_at[(name, cut, "skip")]] is None:
+            continue
+        dr, ds = readcore.digest_ok(lines[k]), readcore.digest_ok(lines[pair_at[(name, cut, "skip")]])
+        if dr is None or ds is None:
+            continue
+        # reading the bodies met the cut (an error status somewhere); skipping them instead ends cleanly
+        read_bad = dr[-4] < 0 or any(isinstance(e, list) and len(e) > 10 and (e[0] < 0 or e[10] < 0) for e in dr)
+        skip_clean = ds[-4] == EOF and all(e[0] >= 0 and (len(e) <= 10 or e[10] >= 0) for e in ds if isinstance(e, list))   # (e[10]: what archive_read_data_skip returned)
+        if read_bad and skip_clean:
+            rep.violation("C08:skip-hides-truncation:%s" % name,
+                          "%s cut at %d, client with a seek callback and no skip callback: reading the bodies reports the truncation (final status %d), "
+                          "skipping them ends with a clean end of archive after %d entries" % (name, cut, dr[-4], len(entries_of(ds))),
+                          dict(case=rcases[pair_at[(name, cut, "skip")]][:200000], archive=name, fault="truncate@%d, bodies skipped" % cut,
                                cmd="harness readAll (asan) on the case line"), found_input=True)
     rep.coverage.update(
         evaluations=len(cases) + len(rcases),
